@@ -267,6 +267,8 @@ class CheckC10(core.Check):
         which = rnd.randrange(4)
         parsed, _ = self._prefix(c, name, seed, min(k, len(overhead(*self._pp(name)))))
         if which == 0:
+            c.op("keygen", "A", flags=("cmp",))
+            c.op("keygen", "B", flags=("cmp",))
             for p in ("A", "B"):
                 for loc in [0, 1, 2, 3, 4, 9, 10, 11, 255, 256, 2**31, 2**63]:
                     for ln in [0, 1, 31, 32, 33, 64]:
